@@ -205,6 +205,29 @@ func misuses() []misuse {
 		svcRule("path-and-query/inside-a-segment/suffix", []string{"bad_field"}, "/x/{bad_field}.json", 1, spec.F("bad_field", 1, spec.String).Q("bad_field")),
 		svcRule("path-and-query/inside-a-segment/prefix", []string{"bad_field"}, "/v{bad_field}/x", 1, spec.F("bad_field", 1, spec.String).Q("bad_field")),
 		svcRule("delete-unbound-field", []string{"bad_field"}, "/x", 4, spec.F("bad_field", 2, spec.String)),
+		// the same unbound field, in an RPC declared AFTER valid RPCs whose routes have a path variable of that
+		// very name (a rule is judged per RPC; nothing carries over from the RPC before)
+		misuse{Rule: "get-unbound-field/after-route-with-that-variable", Service: true, Svc: func(pkg string) ([]*spec.Message, *spec.Service, []string) {
+			ok := &spec.Message{Name: "PriorReq", Fields: []*spec.Field{spec.F("bad_field", 1, spec.String)}}
+			req := &spec.Message{Name: "BadReq", Fields: []*spec.Field{spec.F("bad_field", 1, spec.String)}}
+			resp := &spec.Message{Name: "BadResp", Fields: []*spec.Field{spec.F("ok", 1, spec.Bool)}}
+			s := &spec.Service{Name: "BadService", Methods: []*spec.Method{
+				{Name: "Fine", In: "." + pkg + ".PriorReq", Out: "." + pkg + ".BadResp", HTTP: &spec.HTTP{Path: "/x/{bad_field}", Verb: 1}},
+				{Name: "AlsoFine", In: "." + pkg + ".PriorReq", Out: "." + pkg + ".BadResp", HTTP: &spec.HTTP{Path: "/y/{bad_field}", Verb: 4}},
+				{Name: "BadCall", In: "." + pkg + ".BadReq", Out: "." + pkg + ".BadResp", HTTP: &spec.HTTP{Path: "/z", Verb: 1}},
+			}}
+			return []*spec.Message{ok, req, resp}, s, []string{"BadCall", "BadReq", "bad_field"}
+		}},
+		misuse{Rule: "path-and-query/after-route-with-that-query-parameter", Service: true, Svc: func(pkg string) ([]*spec.Message, *spec.Service, []string) {
+			ok := &spec.Message{Name: "PriorReq", Fields: []*spec.Field{spec.F("bad_field", 1, spec.String).Q("bad_field")}}
+			req := &spec.Message{Name: "BadReq", Fields: []*spec.Field{spec.F("bad_field", 1, spec.String).Q("bad_field")}}
+			resp := &spec.Message{Name: "BadResp", Fields: []*spec.Field{spec.F("ok", 1, spec.Bool)}}
+			s := &spec.Service{Name: "BadService", Methods: []*spec.Method{
+				{Name: "Fine", In: "." + pkg + ".PriorReq", Out: "." + pkg + ".BadResp", HTTP: &spec.HTTP{Path: "/x", Verb: 1}},
+				{Name: "BadCall", In: "." + pkg + ".BadReq", Out: "." + pkg + ".BadResp", HTTP: &spec.HTTP{Path: "/z/{bad_field}", Verb: 1}},
+			}}
+			return []*spec.Message{ok, req, resp}, s, []string{"BadCall", "BadReq", "bad_field"}
+		}},
 	)
 	return out
 }
